@@ -190,31 +190,21 @@ func (g *G) validPacket(dec string) []byte {
 		return g.ipv6Ext(1)
 	case "fragment":
 		return g.ipv6Ext(2)
-	case "igmp12":
-		m = protocol.NewIGMPv2Query(net.IP(g.r.Bytes(4)), uint8(g.r.Bits(8)))
-	case "igmp3q":
-		n := g.r.Intn(5)
-		srcs := make([]net.IP, n)
-		for i := range srcs {
-			srcs[i] = net.IP(g.r.Bytes(4))
+	case "igmp12", "igmp3q", "igmp3gr", "igmp3r":
+		m, _ = g.recValue(dec)
+	case "vlan", "option", "dhcp", "lldp", "lldpchassis", "lldpport", "lldpttl":
+		m, _ = g.recValue(dec)
+	case "dhcpopts":
+		m, _ = g.recValue("dhcp")
+		var b []byte
+		func() {
+			defer func() { recover() }()
+			b, _ = m.MarshalBinary()
+		}()
+		if len(b) > 240 {
+			return b[240:]
 		}
-		m = protocol.NewIGMPv3Query(net.IP(g.r.Bytes(4)), uint8(g.r.Bits(8)), uint8(g.r.Bits(8)), srcs)
-	case "igmp3gr", "igmp3r":
-		ng := 1 + g.r.Intn(3)
-		grs := make([]protocol.IGMPv3GroupRecord, ng)
-		for i := range grs {
-			n := g.r.Intn(4)
-			srcs := make([]net.IP, n)
-			for k := range srcs {
-				srcs[k] = net.IP(g.r.Bytes(4))
-			}
-			grs[i] = protocol.NewGroupRecord(uint8(1+g.r.Intn(6)), net.IP(g.r.Bytes(4)), srcs)
-		}
-		if dec == "igmp3gr" {
-			m = &grs[0]
-		} else {
-			m = protocol.NewIGMPv3Report(grs)
-		}
+		return b
 	default:
 		return g.r.Bytes(g.r.Geom(40, 300))
 	}
@@ -341,6 +331,16 @@ func runC08(seed uint64, tier, dir, replay string) error {
 				}
 			}
 		}
+		if dec == "igmp3r" {
+			// a group record of exactly 65536 bytes (16382 sources): its 16-bit size is 0
+			for _, ng := range []int{3, 65535} {
+				c := make([]byte, 8+65536)
+				c[0], c[6], c[7] = 0x22, byte(ng>>8), byte(ng)
+				c[8], c[10], c[11] = 1, 0x3f, 0xfe
+				inputs = append(inputs, c)
+				kinds = append(kinds, "record-size-wrap")
+			}
+		}
 		if dec == "eth" {
 			for _, nb := range v6Extremes(tier == "thorough") {
 				inputs = append(inputs, nb.b)
@@ -362,8 +362,21 @@ func runC08(seed uint64, tier, dir, replay string) error {
 				cmp = 1
 			}
 			js := map[string]interface{}{"kind": "decode:" + dec, "input_kind": kinds[i], "input": hexs(in), "outcome": oc, "reencoded": hexs(r.re), "detail": r.extra}
-			idx := o.Add(fmt.Sprintf("(Pk %d %s %d %s %d)", pktDecCode[dec], packBytes(in), r.outcome, packBytes(r.re), cmp),
-				js, "decode:"+dec, fmt.Sprintf("%s/%s/%d", kinds[i], oc, len(in)/8))
+			term := fmt.Sprintf("(Pk %d %s %d %s %d)", pktDecCode[dec], packBytes(in), r.outcome, packBytes(r.re), cmp)
+			if pktDecCode[dec] >= 100 {
+				// the record kinds: the model decodes every input; the re-encoding and the reported size of
+				// whatever was decoded are compared too (inputs below 64 KiB: beyond, the 16-bit sizes wrap)
+				cmp = 0
+				if r.outcome == 0 && r.extra != "reencode-panic" && len(in) < 65536 {
+					cmp = 2
+					if r.lenv < 0 || dec == "lldpchassis" || dec == "lldpport" || dec == "lldpttl" || dec == "dhcpopts" {
+						cmp = 1
+					}
+				}
+				js["reported_len"] = r.lenv
+				term = fmt.Sprintf("(Pk2 %d %s %d %s %d %d)", pktDecCode[dec], packBytes(in), r.outcome, packBytes(r.re), max0(r.lenv), cmp)
+			}
+			idx := o.Add(term, js, "decode:"+dec, fmt.Sprintf("%s/%s/%d", kinds[i], oc, len(in)/8))
 			if r.outcome >= 2 {
 				direct = append(direct, map[string]interface{}{"what": fmt.Sprintf("%s decoder: %s on %d bytes (%s)", dec, oc, len(in), r.extra), "index": idx, "case": js})
 			}
@@ -376,7 +389,7 @@ func runC08(seed uint64, tier, dir, replay string) error {
 		o.Meta["direct_violations"] = direct
 	}
 	o.Meta["outcomes"] = outcomes
-	o.Meta["rule"] = "per decoder (Ethernet+VLAN, ARP, IPv4, IPv6, ICMP, UDP, TCP, hop-by-hop, routing, fragment, VLAN, IPv6 option, IGMPv1/2, IGMPv3 query / group record / report, DHCP, DHCP options, LLDP and its three TLVs): truncation of a valid packet at every offset (<=120), every one of the first 24 bytes set to 0/1/0xfe/0xff, random valid packets and structure-aware mutations (truncate, boundary bytes, flips, extension); Ethernet/IPv6 packets whose extension headers carry Hdr Ext Len 0/1/31/254/255 and are long enough to hold them; IGMPv3 source / aux counts at the values where 16-bit size arithmetic wraps; each decode runs in a worker subprocess under a 3 s wall-clock limit and a 1 GiB heap limit; distinct by decoder x input kind x outcome x size bucket"
+	o.Meta["rule"] = "per decoder (Ethernet+VLAN, ARP, IPv4, IPv6, ICMP, UDP, TCP, hop-by-hop, routing, fragment, VLAN, IPv6 option, IGMPv1/2, IGMPv3 query / group record / report, DHCP, DHCP options, LLDP and its three TLVs): truncation of a valid packet at every offset (<=120), every one of the first 24 bytes set to 0/1/0xfe/0xff, random valid packets and structure-aware mutations (truncate, boundary bytes, flips, extension); Ethernet/IPv6 packets whose extension headers carry Hdr Ext Len 0/1/31/254/255 and are long enough to hold them; IGMPv3 source / aux counts at the values where 16-bit size arithmetic wraps, a membership report holding a group record of exactly 65536 bytes; for the kinds not reached from Ethernet (802.1Q tag, IPv6 option, IGMP, DHCP, LLDP) the valid packets are encodings of generated well-formed values and the model's re-encoding and reported size of every decoded value are compared with the implementation's; each decode runs in a worker subprocess under a 3 s wall-clock limit and a 1 GiB heap limit; distinct by decoder x input kind x outcome x size bucket"
 	return o.Close()
 }
 
@@ -536,10 +549,47 @@ func runC09(seed uint64, tier, dir, replay string) error {
 		}
 		addLane("igmpv3-sqrv", 6, ws)
 	}
+	// (c) the kinds that are not reached from the Ethernet decoder: well-formed values through
+	// encode -> decode -> encode, with the value itself given to the model
+	nrec := 60
+	if tier == "thorough" {
+		nrec = 1500
+	}
+	for _, kind := range recKinds {
+		for i := 0; i < nrec; i++ {
+			m, term := g.recValue(kind)
+			want := canonHash(canonOf(m))
+			len0 := 0
+			func() {
+				defer func() { recover() }()
+				len0 = int(m.Len())
+			}()
+			b, err, pan := marshalGuard(m)
+			if pan != "" {
+				directEnc = append(directEnc, map[string]interface{}{"what": fmt.Sprintf("encoding a %s value panics: %s", kind, pan), "index": -1,
+					"case": map[string]interface{}{"kind": "value:" + kind, "fields": canonString(canonOf(m)), "panic": pan}})
+				continue
+			}
+			if err != nil {
+				directEnc = append(directEnc, map[string]interface{}{"what": fmt.Sprintf("encoding a well-formed %s value fails: %v", kind, err), "index": -1,
+					"case": map[string]interface{}{"kind": "value:" + kind, "fields": canonString(canonOf(m))}})
+				continue
+			}
+			r := pool.Run(kind, b)
+			same := 0
+			if r.chash == want {
+				same = 1
+			}
+			js := map[string]interface{}{"kind": "value:" + kind, "fields": canonString(canonOf(m)), "bytes": hexs(b), "len": len0, "outcome": r.outcome,
+				"reencoded": hexs(r.re), "len_after": r.lenv, "fields_equal": same == 1}
+			o.Add(fmt.Sprintf("(Rt %s %s %d %d %s %d %d)", term, packBytes(b), len0, r.outcome, packBytes(r.re), max0(r.lenv), same),
+				js, "value:"+kind, fmt.Sprintf("%d", len(b)/16))
+		}
+	}
 	if len(directEnc) > 0 {
 		o.Meta["direct_violations"] = directEnc
 	}
-	o.Meta["rule"] = "random well-formed Ethernet frames (untagged / tagged incl. the priority-tag shape VID 0, payloads IPv4 with options + ICMP/UDP/opaque, IPv6 with extension-header chains of length 0..3 in all orders each header at most once, ARP, opaque) through MarshalBinary -> UnmarshalBinary -> MarshalBinary with the payload decoder chosen and the reported size; bit lanes exhaustively for VLAN TCI, IPv4 version/IHL, DSCP/ECN, flags/fragment offset, IPv6 fragment offset/M, TCP offset/flags, IGMPv3 S/QRV, sampled for the IPv6 first word; distinct by frame kind x size bucket x payload tag / lane block"
+	o.Meta["rule"] = "random well-formed values of the kinds not reached from Ethernet (802.1Q tag, IPv6 option, IGMP v1/v2 through every constructor, IGMPv3 query / group record with auxiliary words / report, DHCP through every constructor with pad, address, address-list, string and raw options of 0..253 bytes, LLDP chassis / port / TTL TLVs and the LLDP header) through encode -> decode -> encode, the value itself evaluated by the model (encoding, reported size, decode of the encoding); random well-formed Ethernet frames (untagged / tagged incl. the priority-tag shape VID 0, payloads IPv4 with options + ICMP/UDP/opaque, IPv6 with extension-header chains of length 0..3 in all orders each header at most once, ARP, opaque) through MarshalBinary -> UnmarshalBinary -> MarshalBinary with the payload decoder chosen and the reported size; bit lanes exhaustively for VLAN TCI, IPv4 version/IHL, DSCP/ECN, flags/fragment offset, IPv6 fragment offset/M, TCP offset/flags, IGMPv3 S/QRV, sampled for the IPv6 first word; distinct by frame kind x size bucket x payload tag / lane block"
 	o.Meta["exhaustive"] = false
 	return o.Close()
 }
